@@ -340,6 +340,8 @@ def run(ctx):
                 ctx.ok("R20a", construct, "library attribute exists in the installed distribution",
                        f"{len(rec['lines'])} site(s)", loc=f"{path}:{min(rec['lines'])}")
         per_module[path] = sum(len(r["lines"]) for r in per_chain.values())
+        ctx.guard(r20g, mname, path, tree, local)
+        ctx.guard(r20h, mname, path, tree)
         # ---------------- R20e keyword names (thorough)
         if ctx.tier == "thorough":
             ctx.guard(r20e, mname, tree, local)
@@ -348,6 +350,66 @@ def run(ctx):
     ctx.analysed["deprecated_but_present"] = {k: sorted(v) for k, v in dep_seen.items()}
     if n_chains < 500:
         raise AnalysisError(f"only {n_chains} library attribute chains found (>1000 on the pinned tree): enumeration broken")
+
+
+ARRAY_MAKERS = {"zeros", "ones", "empty", "full", "array", "asarray", "asanyarray", "zeros_like", "ones_like", "empty_like", "full_like", "linspace", "logspace",
+                "arange", "concatenate", "stack", "vstack", "hstack", "copy", "cumsum", "diff", "sqrt", "exp", "log", "sin", "cos", "abs", "real", "imag", "cross",
+                "interp", "where", "roll", "flipud", "fliplr", "meshgrid", "tile", "repeat"}
+
+
+def r20g(ctx, mname, path, tree, local):
+    """Methods and attributes used on a local that is certainly an ndarray -- every assignment to it in its function is a call of a numpy
+    array constructor / ufunc -- exist on numpy.ndarray of the installed numpy (ndarray.itemset, .newbyteorder, .ptp were removed in 2.0)."""
+    ctx.rule("R20g", "attributes used on locals that are certainly numpy arrays exist on numpy.ndarray", kind="N")
+    np_aliases = {k for k, v in local.items() if v[0] == "numpy" and not v[1]}
+    if not np_aliases:
+        return
+    for fn in [n for n in ast.walk(tree) if isinstance(n, (ast.FunctionDef, ast.AsyncFunctionDef))]:
+        assigned = {}
+        for n in ast.walk(fn):
+            tgts = []
+            if isinstance(n, ast.Assign):
+                tgts = [(t, n.value) for t in n.targets]
+            elif isinstance(n, (ast.AugAssign, ast.AnnAssign)) and n.value is not None:
+                tgts = [(n.target, n.value)]
+            elif isinstance(n, (ast.For, ast.AsyncFor, ast.comprehension)):
+                tgts = [(n.target, None)]
+            elif isinstance(n, ast.arg):
+                assigned.setdefault(n.arg, []).append(None)
+            for t, v in tgts:
+                for m in ast.walk(t):
+                    if isinstance(m, ast.Name) and isinstance(m.ctx, ast.Store):
+                        assigned.setdefault(m.id, []).append(v if m is t else None)
+
+        def is_array_call(v):
+            return (isinstance(v, ast.Call) and isinstance(v.func, ast.Attribute) and isinstance(v.func.value, ast.Name) and v.func.value.id in np_aliases
+                    and v.func.attr in ARRAY_MAKERS)
+        arrays = {x for x, vs in assigned.items() if vs and all(is_array_call(v) for v in vs)}
+        for n in ast.walk(fn):
+            if isinstance(n, ast.Attribute) and isinstance(n.value, ast.Name) and n.value.id in arrays and isinstance(n.ctx, ast.Load):
+                k, err, dep, obj = resolve("numpy", ["ndarray", n.attr])
+                construct = f"{path}:numpy.ndarray.{n.attr}"
+                if err:
+                    ctx.bad("R20g", construct, "attribute of a numpy array exists in the installed numpy", f"`{n.value.id}.{n.attr}` in {fn.name}: {n.value.id} is always the result of a numpy "
+                            f"array constructor; {err}", key_detail="unresolved ndarray attribute", loc=f"{path}:{n.lineno}")
+                else:
+                    ctx.ok("R20g", construct, "attribute of a numpy array exists in the installed numpy", loc=f"{path}:{n.lineno}")
+
+
+def r20h(ctx, mname, path, tree):
+    """importlib.util.find_spec('a.b') imports package `a` first and raises ModuleNotFoundError when it is absent: an availability probe
+    must name a top-level package (or sit in a try that catches ImportError)."""
+    ctx.rule("R20h", "availability probes (find_spec) name a top-level package, so that an absent optional dependency answers None instead of raising", kind="N")
+    for n in ast.walk(tree):
+        if isinstance(n, ast.Call) and ast.unparse(n.func).endswith("find_spec") and n.args and isinstance(n.args[0], ast.Constant) and isinstance(n.args[0].value, str):
+            name = n.args[0].value
+            guarded = any(kind in ("try-body",) for kind, _ in guards_of(n, {}, (None, None, name.split(".")[0])))
+            construct = f"{path}:find_spec({name!r})"
+            if "." in name and not guarded:
+                ctx.bad("R20h", construct, "probe of a top-level package", f"find_spec({name!r}) imports {name.split('.')[0]!r} and raises when it is not installed", key_detail="dotted probe",
+                        loc=f"{path}:{n.lineno}")
+            else:
+                ctx.ok("R20h", construct, "probe of a top-level package", loc=f"{path}:{n.lineno}")
 
 
 def module_level_names(tree):
@@ -474,6 +536,9 @@ def r20e(ctx, mname, tree, local):
 
 SELFTEST = {
     "faults": [
+        {"name": "availability probe of a submodule", "file": "pyrex/custom/pyspice.py", "old": "find_spec('PySpice')", "new": "find_spec('PySpice.Spice.NgSpice.Shared')", "rule": "R20h"},
+        {"name": "ndarray.itemset on a freshly allocated array", "file": "pyrex/signals.py", "old": "            responses = np.zeros(len(freqs), dtype=np.complex128)\n",
+         "new": "            responses = np.zeros(len(freqs), dtype=np.complex128)\n            responses.itemset(0, 0)\n", "rule": "R20g"},
         {"name": "removed numpy function in the fallback arm of a test for a name that does not exist either", "file": "pyrex/internal_functions.py",
          "old": "try:\n    from numpy import trapezoid as trapz\nexcept ImportError:\n    from numpy import trapz\n",
          "new": "if hasattr(np, 'trapezoidal'):\n    trapz = np.trapezoidal\nelse:\n    trapz = np.trapz\n", "rule": "R20a"},
